@@ -242,7 +242,7 @@ def _judge_simple(module, cfg_file, records, workers=16):
     os.makedirs(work, exist_ok=True)
     tf = os.path.join(work, "obs.json")
     with open(tf, "w") as f:
-        json.dump({"records": records}, f)
+        json.dump(tlc.nonull({"records": records}), f)
     r = tlc.run_tlc(module, cfg_file=cfg_file, workers=workers, env={"TRACE_FILE": tf})
     shutil.rmtree(work, ignore_errors=True)
     judged = r.printed("JUDGED")
@@ -311,4 +311,34 @@ def check_C15(tier, seed):
                                     for k_, v_ in records[1].items() if k_ not in ("tokens", "pids")}],
                        "checker_cmd": "tlc TraceLayout (Layout.tla operators evaluated on every file found)"})
     v.assumptions.append("digests of identifiers/content come from hashlib (trusted); cross-implementation readability (Java HashStore) is not reachable here")
+    return v.finish()
+
+
+def check_C20(tier, seed):
+    from . import clientcheck
+    v = Verdict("C20", tier, seed, "model_checking")
+    records, ncases, r0 = clientcheck.run(tier, seed)
+    viol, r = _judge_simple("TraceClient", "TraceClient.cfg", records)
+    for name, k in viol:
+        rec = records[k - 1]
+        if rec["kind"] == "verb":
+            c = rec["case"]
+            desc = {"clause": name, "verb": c["verb"], "pid": c["pid"], "fmt": c["fmt"],
+                    "algo": c["algo"], "sum": c["sum"], "sumalg": c["sumalg"], "size": c["size"],
+                    "content": c["content"],
+                    "cli": "raised:" + str(rec["cli"]["err"]) if rec["cli"]["raised"] else "ok",
+                    "api": "raised:" + str(rec["api"]["err"]) if rec["api"]["raised"] else "ok"}
+        else:
+            desc = {"clause": name, "config": rec["config"], "why": rec["why"]}
+        v.violation(desc, {"kind": "client", "clause": name, "record": rec,
+                           "how": "populated store copied twice; hashstoreclient.main() with the case's "
+                                  "options on one copy, the API call of Client!ApiOf on the other"})
+    import collections
+    v.coverage.update({"states": len(records), "transitions": len(records),
+                       "traces_validated_against_impl": len(records),
+                       "cases_enumerated_by_tlc": ncases,
+                       "by_verb": dict(collections.Counter(x["case"]["verb"] for x in records if x["kind"] == "verb")),
+                       "exhaustive": True,
+                       "samples": [{k_: records[5][k_] for k_ in ("case", "api_call", "required")}],
+                       "checker_cmd": "tlc Client (case enumeration, ApiOf) ; tlc TraceClient"})
     return v.finish()
